@@ -133,7 +133,7 @@ func svIndexTx(x *svIndexer, height int64, raw []byte, res ResponseDeliverTx) {
 // SV_C05_byte_identical_replay: after a transaction was executed and indexed,
 // the same bytes are refused by CheckTx and change nothing when delivered again.
 //
-// sv:bounds one SEND (any roles among 2 parties, arbitrary amount/fee/balances) executed at height 2 and indexed; resubmission at height 3
+// sv:bounds one SEND (any roles among 2 parties, arbitrary amount/fee/balances) included in block 2 with whatever result (ok or failed) and indexed; the sender's balance then grows by an arbitrary amount; resubmission at height 3
 // sv:outside Tendermint's indexer itself (an in-memory index with the same Get contract is installed)
 // sv:goal CheckTx of the resubmission is not OK; DeliverTx of it leaves every ledger cell unchanged
 func SV_C05_byte_identical_replay() {
@@ -143,10 +143,14 @@ func SV_C05_byte_identical_replay() {
 	sv.Assume(e.validate(tx))
 	raw := svEncode(tx)
 	res := e.app.txDeliverer()(RequestDeliverTx{Tx: raw})
-	sv.Assume(res.Code == 0)
-	svIndexTx(x, 2, raw, res)
+	sv.Cover(res.Code == 0, "first-execution-ok")
+	sv.Cover(res.Code != 0, "first-execution-failed")
+	svIndexTx(x, 2, raw, res) // included in block 2, whatever its result
 	svCommitBlock(e.app)
 	svOpenBlock(e.app, 3)
+	// the state moves on: the sender receives an arbitrary amount (a transaction
+	// that failed for lack of funds could now succeed)
+	svFundOLT(e.app, svParty_(0).Addr, svNonNeg("topup"))
 	l0 := e.ledger()
 	chk := e.app.txChecker()(RequestCheckTx{Tx: raw})
 	sv.Assert(chk.Code != 0, "resubmission-refused-by-mempool")
